@@ -1,5 +1,5 @@
 SPECIFICATION Spec
 CONSTANT Serial = {1, 2}
 CONSTRAINT RefBound
-INVARIANTS RefPositive ReleasedDead AppOwnsAlone
+INVARIANTS RefPositive ReleasedDead AppOwnsAlone ExtraOnApp
 CHECK_DEADLOCK FALSE
